@@ -570,7 +570,7 @@ func run(c *vf.Ctx) {
 	g := gitx.New(c.Scratch)
 	g.Env = append(g.Env, "GIT_CEILING_DIRECTORIES="+c.Scratch)
 	k := &checker{c, g}
-	nCases := c.N(300, 2000)
+	nCases := c.N(220, 2000)
 	batchSize := 50
 	// all generation up front, sequentially (deterministic)
 	var cases []tcase
@@ -636,12 +636,12 @@ func run(c *vf.Ctx) {
 		}
 	})
 	c.Extra("git_invocations", gitx.Calls.Load())
-	c.Floor("cases", c.Counter("cases_checked"), c.N(280, 1900))
-	c.Floor("git apply runs accepted with identical result", c.Counter("apply_ok"), c.N(180, 1300))
-	c.Floor("text file patches applied", c.Counter("file_patches_applied"), c.N(600, 4000))
-	c.Floor("stats compared with git numstat", c.Counter("stats_compared"), c.N(600, 4000))
-	c.Floor("binary pairs", c.Counter("binary_pairs"), c.N(10, 80))
-	c.Floor("patches with rename sections applied", c.Counter("rename_patches"), c.N(4, 40))
+	c.Floor("cases", c.Counter("cases_checked"), c.N(200, 1900))
+	c.Floor("git apply runs accepted with identical result", c.Counter("apply_ok"), c.N(130, 1300))
+	c.Floor("text file patches applied", c.Counter("file_patches_applied"), c.N(450, 4000))
+	c.Floor("stats compared with git numstat", c.Counter("stats_compared"), c.N(450, 4000))
+	c.Floor("binary pairs", c.Counter("binary_pairs"), c.N(8, 80))
+	c.Floor("patches with rename sections applied", c.Counter("rename_patches"), c.N(3, 40))
 	c.Floor("distinct tags", c.SeenCount("tags"), 25)
 	c.Assume("git 2.39.5 `git apply` (outside a repository, plain files) and `git diff-tree --numstat --no-renames` are the reference; rename detection is off on both sides (object.DiffTree)")
 	c.Assume("a pair is binary when either side has a NUL in its first 8000 bytes (git's and go-git's rule); for such pairs only the marker and git's consistent refusal/acceptance are checked")
